@@ -35,7 +35,12 @@ two precipitate phases on Al-Mg-Si, GeneralSurrogate on Fe-Cr-Ni whose two phase
 Every getter that takes a phase / precPhase argument is exercised with the argument left out AND with every admissible explicit
 value (Al-Mg-Si: both precipitate phases; Fe-Cr-Ni: both phases; one-phase families: the first value by name); the Al-Mg-Si
 and Fe-Cr-Ni cases train only the first, only the second, or both values, and the mech key 'phase' (default / explicit_first /
-explicit_other) says which form failed.  Training SUBSETS: every case draws which quantities are trained, per phase where the
+explicit_other) says which form failed.  Query HISTORIES (state=query_history): on one shared backend object every public
+pass-through getter of an untrained surrogate is called at a matrix-only (dilute, single-phase) point before anything was computed, at
+a two-phase point (successful calculation), again at dilute points with removeCache False / True, after clearCache(), and with default
+arguments - for the phase argument left out and for every explicit value - and compared bit for bit with a mirror backend that
+received the same sequence (this is where results that a backend remembers from earlier calls, e.g. the impingement factor of the
+last successful curvature calculation, must come through).  Training SUBSETS: every case draws which quantities are trained, per phase where the
 API is per phase - e.g. interfacial composition (curvature) only, interfacial composition + diffusivity, driving force only,
 diffusivity only, and on the two-precipitate systems (binary Ni-Al with FCC_L12 and BCC_B2 from the Ni-Cr-Al test database,
 Al-Mg-Si) driving force for one phase and interfacial composition / curvature for the other.  All three clauses are asserted
